@@ -25,6 +25,8 @@ group-by + name lookup, not established numerically).
 """
 import ast
 
+from sa.ctorflow import wire
+
 from sa.astutil import dump, where, kwargs_of, walk_no_nested
 from sa.model import body_nodoc
 from sa.order import enumerate_paths, Event
@@ -969,3 +971,4 @@ def run(prog, rep, tier):
     check_heritability(prog, rep)
     check_estimate(prog, rep)
     check_true(prog, rep)
+    wire(prog, rep, "C14", 0, 40)
